@@ -865,4 +865,238 @@ theorem presented_some {c : ConfT} {p : Nat} {sni : Str} {kp : Option (List Char
     simp at h
     exact absurd h.1 hp'
 
+/-! ### the stateful port conflict resolver -/
+
+/-- invariant of the resolver state after the listeners `done` were processed -/
+structure PCInv (st : PCState) (done : List ListenerT) : Prop where
+  owner : ∀ p, st.owner.lookup p = (done.find? (·.base.port == p)).map (·.https)
+  conf : ∀ p, p ∈ st.conflictedPorts ↔ ∃ a ∈ done, ∃ b ∈ done, a.base.port = p ∧ b.base.port = p ∧ a.https ≠ b.https
+  byPort : (∀ o ∈ done, o.base.port ∉ st.conflictedPorts → o ∈ st.byPort) ∧ (∀ o ∈ st.byPort, o ∈ done)
+  invalid : ∀ o, o ∈ st.invalid ↔ o ∈ done ∧ o.base.port ∈ st.conflictedPorts
+
+theorem find?_port_append (done : List ListenerT) (l : ListenerT) (p : Nat) :
+    ((done ++ [l]).find? (·.base.port == p)) =
+      ((done.find? (·.base.port == p)).or (if l.base.port == p then some l else none)) := by
+  rw [List.find?_append]
+  congr 1
+  by_cases h : (l.base.port == p) = true <;> simp [List.find?, h]
+
+theorem pcInv_step {st : PCState} {done : List ListenerT} (hi : PCInv st done) (l : ListenerT) :
+    PCInv (pcStep st l) (done ++ [l]) := by
+  obtain ⟨hA, hB, ⟨hC1, hC2⟩, hD⟩ := hi
+  unfold pcStep
+  by_cases hcp : st.conflictedPorts.contains l.base.port = true
+  · -- the port is already conflicted
+    have hcp' : l.base.port ∈ st.conflictedPorts := by simpa using hcp
+    simp only [hcp, if_true]
+    obtain ⟨a, ha, _, _, hap, _, _⟩ := (hB _).mp hcp'
+    refine ⟨?_, ?_, ⟨?_, ?_⟩, ?_⟩
+    · intro p
+      rw [hA p, find?_port_append]
+      by_cases hp : (l.base.port == p) = true
+      · have hp' : l.base.port = p := by simpa using hp
+        have : (done.find? (·.base.port == p)).isSome = true := by
+          rw [List.find?_isSome]; exact ⟨a, ha, by simp [hap, hp']⟩
+        cases hf : done.find? (·.base.port == p) with
+        | none => rw [hf] at this; cases this
+        | some x => simp
+      · simp [hp]
+    · intro p
+      rw [hB p]
+      constructor
+      · rintro ⟨a, ha, b, hb, h1, h2, h3⟩
+        exact ⟨a, List.mem_append_left _ ha, b, List.mem_append_left _ hb, h1, h2, h3⟩
+      · rintro ⟨a, ha, b, hb, h1, h2, h3⟩
+        rcases List.mem_append.mp ha with ha1 | ha1 <;> rcases List.mem_append.mp hb with hb1 | hb1
+        · exact ⟨a, ha1, b, hb1, h1, h2, h3⟩
+        · simp at hb1; subst hb1; rw [← h2]; exact (hB _).mp hcp'
+        · simp at ha1; subst ha1; rw [← h1]; exact (hB _).mp hcp'
+        · simp at ha1 hb1; subst ha1; subst hb1; exact absurd rfl h3
+    · intro o ho hnc
+      rcases List.mem_append.mp ho with ho | ho
+      · exact hC1 o ho hnc
+      · simp at ho; subst ho; exact absurd hcp' hnc
+    · intro o ho; exact List.mem_append_left _ (hC2 o ho)
+    · intro o
+      simp only [List.mem_cons, List.mem_append, List.not_mem_nil, or_false, hD o]
+      constructor
+      · rintro (e | ⟨h1, h2⟩)
+        · subst e; exact ⟨Or.inr rfl, hcp'⟩
+        · exact ⟨Or.inl h1, h2⟩
+      · rintro ⟨h1 | h1, h2⟩
+        · exact Or.inr ⟨h1, h2⟩
+        · exact Or.inl h1
+  · have hcp' : l.base.port ∉ st.conflictedPorts := by simpa using hcp
+    simp only [hcp]
+    simp only [Bool.false_eq_true, if_false]
+    -- listeners of the port seen so far share one protocol
+    have hsame : ∀ a ∈ done, ∀ b ∈ done, a.base.port = l.base.port → b.base.port = l.base.port → a.https = b.https := by
+      intro a ha b hb h1 h2
+      apply Classical.byContradiction
+      intro hne
+      exact hcp' ((hB _).mpr ⟨a, ha, b, hb, h1, h2, hne⟩)
+    cases hlk : st.owner.lookup l.base.port with
+    | none =>
+      -- the first listener of the port
+      have hnone : done.find? (·.base.port == l.base.port) = none := by
+        have := hA l.base.port; rw [hlk] at this
+        cases hf : done.find? (·.base.port == l.base.port) with
+        | none => rfl
+        | some x => rw [hf] at this; cases this
+      have hno : ∀ o ∈ done, o.base.port ≠ l.base.port := by
+        intro o ho e
+        have := List.find?_eq_none.mp hnone o ho
+        simp [e] at this
+      simp only
+      refine ⟨?_, ?_, ⟨?_, ?_⟩, ?_⟩
+      · intro p
+        rw [find?_port_append]
+        by_cases hp : (l.base.port == p) = true
+        · have hp' : l.base.port = p := by simpa using hp
+          subst hp'
+          simp [List.lookup, hnone]
+        · have hp' : ¬ l.base.port = p := by simpa using hp
+          have hp2 : (p == l.base.port) = false := by simpa using fun e : p = l.base.port => hp' e.symm
+          simp [List.lookup, hp2, hp, hA p]
+      · intro p
+        rw [hB p]
+        constructor
+        · rintro ⟨a, ha, b, hb, h1, h2, h3⟩
+          exact ⟨a, List.mem_append_left _ ha, b, List.mem_append_left _ hb, h1, h2, h3⟩
+        · rintro ⟨a, ha, b, hb, h1, h2, h3⟩
+          rcases List.mem_append.mp ha with ha1 | ha1 <;> rcases List.mem_append.mp hb with hb1 | hb1
+          · exact ⟨a, ha1, b, hb1, h1, h2, h3⟩
+          · simp at hb1; subst hb1; exact absurd (h1.trans h2.symm) (hno a ha1)
+          · simp at ha1; subst ha1; exact absurd (h2.trans h1.symm) (hno b hb1)
+          · simp at ha1 hb1; subst ha1; subst hb1; exact absurd rfl h3
+      · intro o ho hnc
+        rcases List.mem_append.mp ho with ho | ho
+        · exact List.mem_cons_of_mem _ (hC1 o ho hnc)
+        · simp at ho; subst ho; exact List.mem_cons_self
+      · intro o ho
+        rcases List.mem_cons.mp ho with e | e
+        · subst e; simp
+        · exact List.mem_append_left _ (hC2 o e)
+      · intro o
+        rw [hD o]
+        constructor
+        · rintro ⟨h1, h2⟩; exact ⟨List.mem_append_left _ h1, h2⟩
+        · rintro ⟨h1, h2⟩
+          rcases List.mem_append.mp h1 with h1 | h1
+          · exact ⟨h1, h2⟩
+          · simp at h1; subst h1; exact absurd h2 hcp'
+    | some grp =>
+      -- the first listener `f` of the port decided the protocol group
+      obtain ⟨f, hff⟩ : ∃ f, done.find? (·.base.port == l.base.port) = some f ∧ f.https = grp := by
+        have := hA l.base.port; rw [hlk] at this
+        cases hf : done.find? (·.base.port == l.base.port) with
+        | none => rw [hf] at this; cases this
+        | some x => rw [hf] at this; simp at this; exact ⟨x, rfl, this.symm⟩
+      have hfm : f ∈ done := List.mem_of_find?_eq_some hff.1
+      have hfp : f.base.port = l.base.port := by simpa using List.find?_some hff.1
+      have hfind : ∀ p, ((done ++ [l]).find? (·.base.port == p)).map (·.https) = (done.find? (·.base.port == p)).map (·.https) := by
+        intro p
+        rw [find?_port_append]
+        by_cases hp : (l.base.port == p) = true
+        · have hp' : l.base.port = p := by simpa using hp
+          subst hp'
+          rw [hff.1]; simp
+        · simp [hp]
+      simp only
+      by_cases hg : (grp != l.https) = true
+      · -- the other protocol group: the port becomes conflicted
+        have hne : f.https ≠ l.https := by rw [hff.2]; simpa using hg
+        simp only [hg, if_true]
+        refine ⟨?_, ?_, ⟨?_, ?_⟩, ?_⟩
+        · intro p; rw [hfind p]; exact hA p
+        · intro p
+          simp only [List.mem_cons]
+          constructor
+          · rintro (e | h)
+            · subst e
+              exact ⟨f, List.mem_append_left _ hfm, l, by simp, hfp, rfl, hne⟩
+            · obtain ⟨a, ha, b, hb, h1, h2, h3⟩ := (hB p).mp h
+              exact ⟨a, List.mem_append_left _ ha, b, List.mem_append_left _ hb, h1, h2, h3⟩
+          · rintro ⟨a, ha, b, hb, h1, h2, h3⟩
+            rcases List.mem_append.mp ha with ha1 | ha1 <;> rcases List.mem_append.mp hb with hb1 | hb1
+            · exact Or.inr ((hB p).mpr ⟨a, ha1, b, hb1, h1, h2, h3⟩)
+            · simp at hb1; subst hb1; exact Or.inl h2.symm
+            · simp at ha1; subst ha1; exact Or.inl h1.symm
+            · simp at ha1 hb1; subst ha1; subst hb1; exact absurd rfl h3
+        · intro o ho hnc
+          simp only [List.mem_cons, not_or] at hnc
+          rcases List.mem_append.mp ho with ho | ho
+          · exact List.mem_cons_of_mem _ (hC1 o ho hnc.2)
+          · simp at ho; subst ho; exact List.mem_cons_self
+        · intro o ho
+          rcases List.mem_cons.mp ho with e | e
+          · subst e; simp
+          · exact List.mem_append_left _ (hC2 o e)
+        · intro o
+          simp only [List.mem_cons, List.mem_append, List.mem_filter, List.not_mem_nil, or_false, beq_iff_eq, hD o]
+          constructor
+          · rintro (e | ⟨h1, h2⟩ | ⟨h1, h2⟩)
+            · subst e; exact ⟨Or.inr rfl, Or.inl rfl⟩
+            · exact ⟨Or.inl (hC2 o h1), Or.inl h2⟩
+            · exact ⟨Or.inl h1, Or.inr h2⟩
+          · rintro ⟨h1 | h1, h2⟩
+            · rcases h2 with h2 | h2
+              · by_cases hoc : o.base.port ∈ st.conflictedPorts
+                · exact Or.inr (Or.inr ⟨h1, hoc⟩)
+                · exact Or.inr (Or.inl ⟨hC1 o h1 hoc, h2⟩)
+              · exact Or.inr (Or.inr ⟨h1, h2⟩)
+            · exact Or.inl h1
+      · -- the same protocol group
+        have heq : f.https = l.https := by
+          rw [hff.2]
+          cases hx : (grp != l.https)
+          · simpa using hx
+          · exact absurd hx hg
+        simp only [hg]
+        simp only [Bool.false_eq_true, if_false]
+        refine ⟨?_, ?_, ⟨?_, ?_⟩, ?_⟩
+        · intro p; rw [hfind p]; exact hA p
+        · intro p
+          rw [hB p]
+          constructor
+          · rintro ⟨a, ha, b, hb, h1, h2, h3⟩
+            exact ⟨a, List.mem_append_left _ ha, b, List.mem_append_left _ hb, h1, h2, h3⟩
+          · rintro ⟨a, ha, b, hb, h1, h2, h3⟩
+            rcases List.mem_append.mp ha with ha1 | ha1 <;> rcases List.mem_append.mp hb with hb1 | hb1
+            · exact ⟨a, ha1, b, hb1, h1, h2, h3⟩
+            · simp at hb1; subst hb1
+              exact absurd ((hsame a ha1 f hfm (h1.trans h2.symm) hfp).trans heq) h3
+            · simp at ha1; subst ha1
+              exact absurd ((hsame b hb1 f hfm (h2.trans h1.symm) hfp).trans heq).symm h3
+            · simp at ha1 hb1; subst ha1; subst hb1; exact absurd rfl h3
+        · intro o ho hnc
+          rcases List.mem_append.mp ho with ho | ho
+          · exact List.mem_cons_of_mem _ (hC1 o ho hnc)
+          · simp at ho; subst ho; exact List.mem_cons_self
+        · intro o ho
+          rcases List.mem_cons.mp ho with e | e
+          · subst e; simp
+          · exact List.mem_append_left _ (hC2 o e)
+        · intro o
+          rw [hD o]
+          constructor
+          · rintro ⟨h1, h2⟩; exact ⟨List.mem_append_left _ h1, h2⟩
+          · rintro ⟨h1, h2⟩
+            rcases List.mem_append.mp h1 with h1 | h1
+            · exact ⟨h1, h2⟩
+            · simp at h1; subst h1; exact absurd h2 hcp'
+
+theorem pcInv_foldl (ls : List ListenerT) : ∀ (st : PCState) (done : List ListenerT), PCInv st done →
+    PCInv (ls.foldl pcStep st) (done ++ ls) := by
+  induction ls with
+  | nil => intro st done h; simpa using h
+  | cons l ls ih =>
+    intro st done h
+    have := ih (pcStep st l) (done ++ [l]) (pcInv_step h l)
+    simpa using this
+
+theorem pcInv_run (ls : List ListenerT) : PCInv (pcRun ls) (ls.filter (·.fieldsOK)) := by
+  have h0 : PCInv {} [] := ⟨by intro p; rfl, by intro p; simp, ⟨by simp, by simp⟩, by intro o; simp⟩
+  simpa [pcRun] using pcInv_foldl (ls.filter (·.fieldsOK)) {} [] h0
+
 end NGF.PipelineTls
